@@ -50,7 +50,9 @@ fn body(c: &Case, lx: &mut Local) {
             _ => {}
         }
         lx.count(if r.is_ok() { "executions_returning" } else { "executions_unwinding" }, 1);
-        hash_of(&(r.is_ok(), a.to_vec()))
+        // the observation is what this property is about: the verdict, and the answer of an accepted call
+        // (what a rejected call leaves in the array is not part of it)
+        hash_of(&r.clone().ok())
     });
 }
 
@@ -145,6 +147,75 @@ fn main() {
             out
         })
     });
+    // call histories: the routines are stateless by contract, so the verdict of a call (returns / panics)
+    // must not depend on the calls made before it on the same thread. Every sequence of 2 (3) calls.
+    let menu: Vec<(usize, Op)> = (0..=3usize)
+        .flat_map(|n| {
+            let mut ops: Vec<Op> = Vec::new();
+            for i in (0..=n + 1).chain([usize::MAX]) {
+                ops.push(Op::Get(i));
+                ops.push(Op::Partition(i));
+            }
+            for l in [vec![], vec![0], vec![1], vec![0, 1], vec![2], vec![1, 0], vec![3], vec![0, 3], vec![2, 2], vec![usize::MAX]] {
+                ops.push(Op::Many(l));
+            }
+            ops.into_iter().map(move |op| (n, op))
+        })
+        .collect();
+    let bulk_only: Vec<(usize, Op)> = menu.iter().filter(|(_, op)| matches!(op, Op::Many(_))).cloned().collect();
+    let thorough = rep.cfg.thorough();
+    let mut hcases: Vec<Vec<(usize, Op)>> = Vec::new();
+    for a in &menu {
+        for b in &menu {
+            hcases.push(vec![a.clone(), b.clone()]);
+        }
+    }
+    let third: &Vec<(usize, Op)> = if thorough { &menu } else { &bulk_only };
+    for a in third {
+        for b in third {
+            for c in third {
+                hcases.push(vec![a.clone(), b.clone(), c.clone()]);
+            }
+        }
+    }
+    rep.run_sub(
+        "call-histories",
+        &format!("every sequence of 2 calls from a menu of {} (array of length 0..=3; get_from_sorted_mut / partition_mut at 0..=n+1 and MAX; get_many_from_sorted_mut with 10 request lists, in and out of range, repeats, empty), and every sequence of 3 calls from {} of them, executed on one thread: each call returns iff its own arguments are in range, whatever was asked before (in particular: the same request on a shorter array, a request after a rejected one)", menu.len(), if thorough { "all" } else { "the bulk requests" }),
+        hcases.into_iter(),
+        |h, lx| {
+            lx.nontrivial(true);
+            let pol = [Policy::Middle, Policy::First, Policy::Last][h.len() % 3];
+            lx.explore(&PivotMode::Bounded { policy: pol, bound: 0 }, |lx| {
+                let mut obs = Vec::new();
+                for (step, (n, op)) in h.iter().enumerate() {
+                    let n = *n;
+                    let vals: Vec<i32> = (0..n).map(|i| SPREAD[n - 1 - i]).collect();
+                    let in_range = match op {
+                        Op::Get(i) => *i < n,
+                        Op::Many(v) => v.iter().all(|i| *i < n),
+                        Op::Partition(p) => *p < n,
+                    };
+                    let mut a = Array1::from(vals.clone());
+                    let r: Result<String, String> = match op {
+                        Op::Get(i) => guarded(|| format!("{:?}", a.get_from_sorted_mut(*i))),
+                        Op::Many(v) => {
+                            let ix = Array1::from(v.clone());
+                            guarded(|| format!("{:?}", a.get_many_from_sorted_mut(&ix)))
+                        }
+                        Op::Partition(p) => guarded(|| format!("{:?}", a.partition_mut(*p))),
+                    };
+                    match (&r, in_range) {
+                        (Ok(v), false) => lx.fail("C16/out-of-range-accepted", || format!("call {} of the history {:?}: {:?} on an array of length {} returned {} instead of panicking", step + 1, h, op, n, v)),
+                        (Err(msg), true) => lx.fail("C16/in-range-panic", || format!("call {} of the history {:?}: {:?} on an array of length {} panicked: {}", step + 1, h, op, n, msg)),
+                        _ => {}
+                    }
+                    obs.push(r.is_ok());
+                }
+                hash_of(&obs)
+            });
+        },
+    );
+
     rep.run_sub(
         "long-request-lists",
         "arrays of length 33, 40, 64, 65, 100, 130 x request lists (every position; every second, decreasing; a permutation; the first third) alone and with one out-of-range entry (n, n+1, MAX) at the front, in the middle and at the end; pivot policies first / last / middle (one execution each)",
